@@ -169,20 +169,20 @@ impl<const L: usize> RealBook for OrderBook<L> {
         self.get_time()
     }
     fn set_time(&mut self, t: u64) {
-        OrderBook::set_time(self, t)
+        let _ = OrderBook::set_time(self, t);
     }
     fn set_trading(&mut self, on: bool) {
         if on {
-            self.enable_trading()
+            let _ = self.enable_trading();
         } else {
-            self.disable_trading()
+            let _ = self.disable_trading();
         }
     }
     fn trade_vol(&self) -> u32 {
         self.get_trade_vol()
     }
     fn reset_trade_vol(&mut self) {
-        OrderBook::reset_trade_vol(self)
+        let _ = OrderBook::reset_trade_vol(self);
     }
     fn create(&mut self, bid: bool, vol: u32, trader: u32, price: Option<u32>) -> Result<usize, String> {
         self.create_order(side_of(bid), vol, trader, price).map_err(|e| e.to_string())
@@ -191,22 +191,22 @@ impl<const L: usize> RealBook for OrderBook<L> {
         self.create_and_place_order(side_of(bid), vol, trader, price).map_err(|e| e.to_string())
     }
     fn place(&mut self, id: usize) {
-        self.place_order(id)
+        let _ = self.place_order(id);
     }
     fn cancel(&mut self, id: usize) {
-        self.cancel_order(id)
+        let _ = self.cancel_order(id);
     }
     fn modify(&mut self, id: usize, p: Option<u32>, v: Option<u32>) {
-        self.modify_order(id, p, v)
+        let _ = self.modify_order(id, p, v);
     }
     fn ev_new(&mut self, id: usize) {
-        self.process_event(Event::New { order_id: id })
+        let _ = self.process_event(Event::New { order_id: id });
     }
     fn ev_cancel(&mut self, id: usize) {
-        self.process_event(Event::Cancellation { order_id: id })
+        let _ = self.process_event(Event::Cancellation { order_id: id });
     }
     fn ev_modify(&mut self, id: usize, p: Option<u32>, v: Option<u32>) {
-        self.process_event(Event::Modify { order_id: id, new_price: p, new_vol: v })
+        let _ = self.process_event(Event::Modify { order_id: id, new_price: p, new_vol: v });
     }
     fn n_orders(&self) -> usize {
         self.get_orders().len()
